@@ -7,6 +7,11 @@
   consumes EXACTLY that element — loaded, or passed over as "not loaded" (mismatched kind with Skip,
   nil) — and advances the element index by exactly one: index and reader position stay in step
   (this is the invariant the property names; it was violated before commit b9a6bd3).
+
+  `array_close_skips_unread`: destroying an array scope with elements left (a `std::tuple` shorter than the array
+  under Skip, a partly read nested array) passes over exactly the unread elements — scalars or containers — so the
+  value that FOLLOWS the array is the next one the enclosing scope sees (the destructor's skip loop, fix 0b9e4f2;
+  before it the reader was left inside the array).
 -/
 import BSVerif.Scope.Cursor
 import BSVerif.Props.C03
@@ -16,28 +21,8 @@ open BSVerif.Scope
 
 local macro "triv" : term => `(by first | rfl | trivial)
 
-/-- reader positioned in front of the complete value `v`, with `rest` behind it -/
-structure At (r : Rd) (pre v rest : List Tok) : Prop where
-  doc : r.doc = pre ++ v ++ rest
-  pos : r.pos = pre.length
-
-theorem rest_of_at {r : Rd} {pre v rest : List Tok} (h : At r pre v rest) : r.rest = v ++ rest := by
-  unfold Rd.rest; rw [h.doc, h.pos, List.append_assoc, List.drop_left]
-
-theorem skip_at {r : Rd} {pre v rest : List Tok} (h : At r pre v rest) (hv : WFv v) :
-    r.skipValue = .ok { r with pos := (pre ++ v).length } := by
-  unfold Rd.skipValue
-  rw [rest_of_at h]
-  obtain ⟨hne, hs⟩ := hv
-  cases hvv : v with
-  | nil => exact absurd hvv hne
-  | cons t ts =>
-    have := hs rest 0
-    rw [hvv] at this
-    simp only [List.cons_append] at this ⊢
-    rw [this]; simp only [skipN]
-    congr 2
-    rw [h.doc, hvv]; simp; omega
+-- `At r pre v rest` (reader positioned in front of the complete value `v`, with `rest` behind it), `rest_of_at` and
+-- `skip_at` live in BSVerif/Scope/Lemmas.lean (shared with the array lemmas of C03)
 
 /-- the abstract outcome of loading kind `ty` from the element `v` -/
 def elementAnswer (mis : Mis) (ty : Ty) (v : List Tok) : Ans :=
@@ -47,11 +32,12 @@ def elementAnswer (mis : Mis) (ty : Ty) (v : List Tok) : Ans :=
   | .error e => .err e
 
 theorem array_element_consumes_one (r : Rd) (pre v rest : List Tok) (h : At r pre v rest) (hv : WFv v)
-    (size index : Nat) (hlt : index < size) (tl : List Scope) (ty : Ty) :
-    let res := step ⟨r, .arr size index :: tl⟩ (.next ty)
+    (size index : Nat) (hlt : index < size) (tl : List Scope) (ty : Ty) (d : Option Err := none) :
+    let res := step ⟨r, .arr size index :: tl, d⟩ (.next ty)
     res.1 = elementAnswer r.mis ty v ∧
     ((∀ e, res.1 ≠ .err e) →
-      res.2.stack = .arr size (index + 1) :: tl ∧ res.2.rd.rest = rest ∧ res.2.rd.doc = r.doc ∧ res.2.rd.mis = r.mis) := by
+      res.2.stack = .arr size (index + 1) :: tl ∧ res.2.rd.rest = rest ∧ res.2.rd.doc = r.doc ∧ res.2.rd.mis = r.mis ∧
+      res.2.deferred = d) := by
   have hrest := rest_of_at h
   have hne : index ≠ size := by omega
   have hvne := hv.1
@@ -65,7 +51,7 @@ theorem array_element_consumes_one (r : Rd) (pre v rest : List Tok) (h : At r pr
       have hts : ts = [] := wfv_scalar_head (hvv ▸ hv) (matchTy_val_children hm)
       subst hts
       simp only
-      refine ⟨triv, fun _ => ⟨triv, ?_, triv, triv⟩⟩
+      refine ⟨triv, fun _ => ⟨triv, ?_, triv, triv, triv⟩⟩
       unfold Rd.rest
       simp only
       rw [h.doc, h.pos, hvv]
@@ -79,10 +65,32 @@ theorem array_element_consumes_one (r : Rd) (pre v rest : List Tok) (h : At r pr
       · simp only [hthrow, if_false]
         have hsk := skip_at h hv
         simp only [hsk, bind, Except.bind, pure, Except.pure]
-        refine ⟨triv, fun _ => ⟨triv, ?_, triv, triv⟩⟩
+        refine ⟨triv, fun _ => ⟨triv, ?_, triv, triv, triv⟩⟩
         unfold Rd.rest
         simp only
         rw [h.doc, List.drop_left]
+
+/-- **Unread elements are passed over when the array scope is destroyed**: with `size - index` complete values left in
+    front of the reader, `close` lands exactly behind the last of them, notifies the parent and defers nothing. -/
+theorem array_close_skips_unread (r : Rd) (pre rest : List Tok) (items : List (List Tok)) (hw : ∀ v ∈ items, WFv v)
+    (h : At r pre items.flatten rest) (size index : Nat) (hsz : size = index + items.length) (tl : List Scope)
+    (d : Option Err) :
+    let res := step ⟨r, .arr size index :: tl, d⟩ .close
+    res.1 = .closed ∧ res.2.stack = notifyParent tl ∧ res.2.deferred = d ∧
+      res.2.rd = { r with pos := (pre ++ items.flatten).length } ∧ res.2.rd.rest = rest := by
+  have hcl := arrCloseLoop_at items hw r pre rest h
+  have hn : size - index = items.length := by omega
+  simp only [step, arrClose, hn, hcl]
+  refine ⟨triv, triv, triv, triv, ?_⟩
+  unfold Rd.rest
+  simp only
+  rw [h.doc, List.drop_left]
+
+/-- the skipped elements may be containers: `[1,[2,[3]],{"k":4}]` left after one element, then `7` -/
+example :
+    run (initSt [.arr 3, .int 1, .arr 2, .int 2, .arr 1, .int 3, .map 1, .str [107], .int 4, .int 7] .skip)
+        [.openArr, .next .int, .close, .next .int]
+      = [.opened 3, .val (.int 1), .closed, .val (.int 7)] := by decide
 
 /-- non-vacuity and the concrete scenario of the property text: `[1,"x",3]` then `7`, loaded as three ints
     with the Skip policy, gives 1, not-loaded, 3 and then 7 — the skipped string disturbs nobody -/
